@@ -22,3 +22,36 @@ CHECKS["C08"] = {
         {"name": "circuitbreaker", "pkg": "pkg/util/circuitbreaker", "test": "TestVerifC08", "workers": 12},
     ],
 }
+
+HTTPRIG = ["pkg/object/httpserver", "harness/common/httpserver"]
+
+CHECKS["C01"] = {
+    "level": "exploration",
+    "technique": "bounded exhaustive enumeration (choice-tree DFS) of rule sets x requests on the real mux against a reference router",
+    "level_text": "every rule set with <=2 rules and <=3 path entries (17-entry menu x 3 host matchers, every order) x 192 requests "
+                  "is served by the real mux (YAML -> supervisor.NewSpec -> reload -> ServeHTTP) and compared with an independent reference router",
+    "level_note": "finite alphabet of matchers and requests; route cache off; HTTP/3 stubbed out (quic-go does not build); reference router = DESIGN A.1",
+    "rule": "choice tree: shape of the rule set, host matcher per rule, path entry per slot; each execution serves all 192 requests; "
+            "distinct_nontrivial = distinct (expected status) classes x units; outcome table counts requests per expected status",
+    "bounds": {"quick": "<=2 entries in <=2 rules (3519 rule sets) x 192 requests", "thorough": "<=3 entries in <=2 rules (~1.07e5 rule sets) x 192 requests"},
+    "assumptions": ["requests built with httptest.NewRequest; handler-visible path read inside a recording handler"],
+    "units": [
+        {"name": "httpserver", "pkg": "pkg/object/httpserver", "test": "TestVerifC01", "inject": [HTTPRIG]},
+    ],
+}
+
+CHECKS["C12"] = {
+    "level": "model_checking",
+    "technique": "exhaustive enumeration of request histories (choice-tree DFS) on the real mux with differential oracle (cache-less twin)",
+    "level_text": "every request sequence up to the bound over a collision-forcing alphabet, for 60 configurations x cache sizes {1,2,64}, is served by the "
+                  "real mux with the cache on; each response is compared with the cache-less twin's answer for that request",
+    "level_note": "finite alphabet (hosts a/aP, methods PUT/UT, paths /p,/q, header X, two clients); the cache-less mux is stateless so its answer per request is computed once",
+    "rule": "choice tree: request i of the history (16 or 32 alternatives); a fresh muxInstance (fresh ARC cache) per history; distinct_nontrivial = distinct "
+            "sequences of uncached statuses observed along a history",
+    "explanation": "states = histories executed (each ends in a distinct cache state reached from an empty cache); transitions = executions; every step compared with the twin",
+    "bounds": {"quick": "histories of length 3, 60 configs x 3 cache sizes", "thorough": "length 4 for cache sizes 1,2 and for configs without ip filter, else 3"},
+    "assumptions": ["ARC cache behaviour is deterministic given the history"],
+    "units": [
+        {"name": "httpserver", "pkg": "pkg/object/httpserver", "test": "TestVerifC12", "inject": [HTTPRIG]},
+    ],
+}
